@@ -146,6 +146,26 @@ impl Scenario for C08 {
                 p.data = encode_text(&lines.join("\n"), enc);
                 p.faults.push("content-line-longer-than-1MiB".into());
             }
+            12 | 13 => {
+                // record-level faults (incl. edge white space of the non-ASCII kind) on the text
+                let text = crate::corpus::model_text(&p.data);
+                let nf = 1 + rng.below(3);
+                let (t, applied) = crate::corpus::record_faults(&mut rng, &text, nf);
+                p.data = encode_text(&t, enc);
+                for a in applied {
+                    p.faults.push(format!("content-{a}"));
+                }
+            }
+            14 if rng.chance(1, 2) => {
+                // the content spells the path of a file that exists (a bundled map, this process's executable, the root
+                // directory): it is still just text
+                let dir = crate::corpus::resources_dir();
+                let f = self.corpus.pick(&mut rng, 4);
+                let name = &self.corpus.files[f].0;
+                let cand = [format!("{dir}/{name}"), format!("{dir}/{name}\n"), format!("  {dir}/{name}  "), "/proc/self/exe".to_string(), "/".to_string(), ".".to_string(), format!("file://{dir}/{name}")];
+                p.data = rng.pick(&cand).clone().into_bytes();
+                p.faults.push("content-is-a-path".into());
+            }
             9 => {
                 let mut m = rng.pick(crate::corpus::MAGICS).to_vec();
                 m.extend_from_slice(&p.data);
@@ -184,6 +204,7 @@ impl Scenario for C08 {
             p.set("dec", 0);
             p.set("t", *rng.pick(&[crate::transport::T_FROM_STR, crate::transport::T_FROM_STR, crate::transport::T_FROM_PATH, crate::transport::T_SLICE, crate::transport::T_FROM_PATH_PIPE]));
             p.set("inherent", 1);
+            p.set("fname", rng.below(8) as i64);
             p.sched.clear();
             p.eintr.clear();
             p.p.remove("decoy");
